@@ -3,6 +3,7 @@ package nodis
 import (
 	"github.com/diiyw/nodis/ds/zset"
 	"github.com/diiyw/nodis/internal/geohash"
+	"github.com/diiyw/nodis/patch"
 )
 
 type GeoMember struct {
@@ -24,9 +25,23 @@ func (n *Nodis) GeoAdd(key string, members ...*GeoMember) int64 {
 		for _, member := range members {
 			v += meta.value.(*zset.SortedSet).ZAdd(member.Member, float64(member.Hash()))
 		}
+		n.geoAdded(key, meta, members)
 		return nil
 	})
 	return v
+}
+
+// geoAdded tells the watchers of the key (WATCH and the change feed) about members stored by GEOADD:
+// a geo member is a sorted-set member whose score is its geohash
+func (n *Nodis) geoAdded(key string, meta *metadata, members []*GeoMember) {
+	n.signalModifiedKey(key, meta)
+	n.notify(func() []patch.Op {
+		ops := make([]patch.Op, 0, len(members))
+		for _, member := range members {
+			ops = append(ops, patch.Op{Type: patch.OpTypeZAdd, Data: &patch.OpZAdd{Key: key, Member: member.Member, Score: float64(member.Hash())}})
+		}
+		return ops
+	})
 }
 
 // GeoAddXX adds the specified members to the key only if the member already exists.
@@ -37,8 +52,15 @@ func (n *Nodis) GeoAddXX(key string, members ...*GeoMember) int64 {
 		if !meta.isOk() {
 			return nil
 		}
+		changed := make([]*GeoMember, 0, len(members))
 		for _, member := range members {
+			if meta.value.(*zset.SortedSet).ZExists(member.Member) {
+				changed = append(changed, member)
+			}
 			v += meta.value.(*zset.SortedSet).ZAddXX(member.Member, float64(member.Hash()))
+		}
+		if len(changed) > 0 {
+			n.geoAdded(key, meta, changed)
 		}
 		return nil
 	})
@@ -53,8 +75,16 @@ func (n *Nodis) GeoAddNX(key string, members ...*GeoMember) int64 {
 		if meta.isOk() {
 			return nil
 		}
+		added := make([]*GeoMember, 0, len(members))
 		for _, member := range members {
-			v += meta.value.(*zset.SortedSet).ZAddNX(member.Member, float64(member.Hash()))
+			c := meta.value.(*zset.SortedSet).ZAddNX(member.Member, float64(member.Hash()))
+			if c > 0 {
+				added = append(added, member)
+			}
+			v += c
+		}
+		if len(added) > 0 {
+			n.geoAdded(key, meta, added)
 		}
 		return nil
 	})
